@@ -346,7 +346,28 @@ func c14Run(c *Ctx) {
 		unk := 0
 		for i, l := range noisy {
 			if meta[i].Kind == "entry" && r.Chance(1, 4) {
-				with = append(with, fmt.Sprintf("zz_unknown_%d = 1", i))
+				key := fmt.Sprintf("zz_unknown_%d", i)
+				if r.Chance(1, 3) {
+					// a name that is unknown HERE but names an option of a section further down: skipping it here
+					// says nothing about the later line
+					groups := []*Grp{meta[i].GrpRef}
+					if meta[i].Sect == "" {
+						groups = preorderGroups(d.Root.G)
+					}
+					for j := i + 1; j < len(meta); j++ {
+						if meta[j].Kind == "entry" && meta[j].Sect != meta[i].Sect {
+							k2 := meta[j].Opt.Field
+							if meta[j].Opt.IniName != "" {
+								k2 = meta[j].Opt.IniName
+							}
+							if resolveIniName(d, groups, k2) == nil && resolveVisible(d, groups, k2) == nil {
+								key = k2
+								break
+							}
+						}
+					}
+				}
+				with = append(with, key+" = 1")
 				unk++
 			}
 			with = append(with, l)
